@@ -82,7 +82,41 @@ def findings_table() -> str:
     return "\n".join(rows)
 
 
-GEN = {"rules": rules_table, "seeds": seeds_table, "refactors": refactors_table, "findings": findings_table}
+def waves_table() -> str:
+    per: dict[str, dict[str, list[int]]] = {}
+    unreported = []
+    other_only = []
+    for d in sorted((V / "seeded").iterdir()):
+        mp = d / "meta.json"
+        if not mp.exists():
+            continue
+        m = json.loads(mp.read_text())
+        prop, n = d.name.split("-")
+        wave = "w1" if int(n) <= 3 else "w2"
+        cb = [c["property"] for c in m.get("caught_by", [])]
+        row = per.setdefault(prop, {"w1": [0, 0, 0], "w2": [0, 0, 0]})
+        row[wave][0] += 1
+        row[wave][1] += 1 if prop in cb else 0
+        row[wave][2] += 1 if cb else 0
+        if not cb:
+            unreported.append(f"* **{d.name}** — {(m.get('title') or '')[:200]}")
+        elif prop not in cb:
+            other_only.append(f"{d.name} ({', '.join(cb)})")
+    rows = ["| property | wave 1: seeds / by own check / by any check | wave 2: seeds / by own check / by any check |", "|---|---|---|"]
+    tot = {"w1": [0, 0, 0], "w2": [0, 0, 0]}
+    for prop, r in sorted(per.items()):
+        rows.append(f"| {prop} | {r['w1'][0]} / {r['w1'][1]} / {r['w1'][2]} | {r['w2'][0]} / {r['w2'][1]} / {r['w2'][2]} |")
+        for w in ("w1", "w2"):
+            for i in range(3):
+                tot[w][i] += r[w][i]
+    rows.append(f"| **all** | **{tot['w1'][0]} / {tot['w1'][1]} / {tot['w1'][2]}** | **{tot['w2'][0]} / {tot['w2'][1]} / {tot['w2'][2]}** |")
+    out = "\n".join(rows)
+    out += "\n\nReported only by the check of another property: " + ("; ".join(other_only) if other_only else "none") + "."
+    out += "\n\nNot reported by any check:\n\n" + ("\n".join(unreported) if unreported else "(none)")
+    return out
+
+
+GEN = {"rules": rules_table, "seeds": seeds_table, "refactors": refactors_table, "findings": findings_table, "waves": waves_table}
 
 
 def main() -> None:
